@@ -436,6 +436,30 @@ theorem allNames_true {N : Type} (p : N → Bool) (hp : ∀ n, p n = true) (q : 
   | isIn n vs => simp only [allNames, hp]
   | exist ns => simp [allNames, hp]
 
+theorem allNames_mono {N : Type} (p p' : N → Bool) (hp : ∀ n, p n = true → p' n = true) (q : Query N) :
+    allNames p q = true → allNames p' q = true := by
+  induction q using Askar.Wql.Lemmas.Query.induct' with
+  | and qs ih =>
+    simp only [allNames]
+    induction qs with
+    | nil => intro _; rfl
+    | cons q qs ih2 =>
+      simp only [allNamesList, Bool.and_eq_true]
+      exact fun h => ⟨ih q (by simp) h.1, ih2 (fun q' hq' => ih q' (by simp [hq'])) h.2⟩
+  | or qs ih =>
+    simp only [allNames]
+    induction qs with
+    | nil => intro _; rfl
+    | cons q qs ih2 =>
+      simp only [allNamesList, Bool.and_eq_true]
+      exact fun h => ⟨ih q (by simp) h.1, ih2 (fun q' hq' => ih q' (by simp [hq'])) h.2⟩
+  | not q ih => simpa only [allNames] using ih
+  | cmp op n v => simpa only [allNames] using hp n
+  | isIn n vs => simpa only [allNames] using hp n
+  | exist ns =>
+    simp only [allNames, List.all_eq_true]
+    exact fun h n hn => hp n (h n hn)
+
 /-- renaming that keeps every name's kind keeps a filter inside the domain of C04 -/
 theorem solid_rename {N : Type} (g h : N → TagName) (good : N → Bool)
     (hp : ∀ n, good n = true → (g n).isPlain = (h n).isPlain) (q : Query N) :
@@ -739,6 +763,32 @@ theorem filterExact_of_c04 (like : Bytes → Bytes → Bool) (F : Option (Query 
 theorem solid_eq_atom (name a : String) (hn : splitName name = .enc name) : (tagQuery (.cmp .eq name a)).solid = true := by
   simp [tagQuery, Query.mapNames, hn, Query.solid, CmpOp.equality]
 
+def keyParts (fixed : Bool) (alg thumb : Option String) (f : Option (Query String)) : List (Query String) :=
+  (match f with | some q => [q.mapNames (mapFilterName fixed)] | none => []) ++
+  (match alg with | some a => [Query.cmp .eq "alg" a] | none => []) ++
+  (match thumb with | some t => [Query.cmp .eq "thumb" t] | none => [])
+
+theorem keyFilter_eq (fixed : Bool) (alg thumb : Option String) (f : Option (Query String)) :
+    keyFilter fixed alg thumb f =
+      if (keyParts fixed alg thumb f).isEmpty then none else some (.and (keyParts fixed alg thumb f)) := rfl
+
+theorem inDomain_and (qs : List (Query String)) (hne : qs ≠ []) (h : ∀ q ∈ qs, (tagQuery q).solid = true) :
+    (tagQuery (.and qs)).InDomain := by
+  have hl : solidList (mapNamesList splitName qs) = true := by
+    induction qs with
+    | nil => rfl
+    | cons q qs ih =>
+      simp only [mapNamesList, solidList, Bool.and_eq_true]
+      refine ⟨h q (by simp), ?_⟩
+      cases qs with
+      | nil => rfl
+      | cons q' qs' => exact ih (by simp) (fun x hx => h x (by simp [hx]))
+  cases qs with
+  | nil => exact absurd rfl hne
+  | cons q qs =>
+    simp only [mapNamesList] at hl
+    simp [Query.InDomain, tagQuery, Query.mapNames, mapNamesList, Query.inDomain, Query.solid, hl]
+
 /-- the combined filter is in C04's domain when the caller's filter is (non-root form) and its names are good -/
 theorem keyFilter_inDomain (fixed : Bool) (alg thumb : Option String) (f : Option (Query String))
     (hf : ∀ q, f = some q → (tagQuery q).solid = true ∧ allNames (goodName fixed) q = true) :
@@ -751,20 +801,25 @@ theorem keyFilter_inDomain (fixed : Bool) (alg thumb : Option String) (f : Optio
       (fun n hn => plain_preserved fixed n hn) q (hf q hq).2]
     exact (hf q hq).1
   intro Q hQ
-  unfold keyFilter at hQ
-  split at hQ
-  · cases hQ
-  · injection hQ with hQ; subst hQ
-    rename_i hne
-    unfold Query.InDomain
-    cases f with
-    | none =>
-      cases alg <;> cases thumb <;>
-        simp_all [tagQuery, Query.mapNames, mapNamesList, Query.inDomain, Query.solid, solidList]
-    | some q =>
-      have := hF q rfl
-      cases alg <;> cases thumb <;>
-        simp_all [tagQuery, Query.mapNames, mapNamesList, Query.inDomain, Query.solid, solidList]
+  rw [keyFilter_eq] at hQ
+  by_cases he : (keyParts fixed alg thumb f).isEmpty = true
+  · simp [he] at hQ
+  · simp only [he, Bool.false_eq_true, if_false] at hQ
+    injection hQ with hQ; subst hQ
+    apply inDomain_and
+    · intro h; rw [h] at he; exact he rfl
+    · intro q hq
+      simp only [keyParts, List.mem_append] at hq
+      rcases hq with (hq | hq) | hq
+      · cases f with
+        | none => cases hq
+        | some q' => simp only [List.mem_singleton] at hq; subst hq; exact hF q' rfl
+      · cases alg with
+        | none => cases hq
+        | some a => simp only [List.mem_singleton] at hq; subst hq; exact hA a
+      · cases thumb with
+        | none => cases hq
+        | some t => simp only [List.mem_singleton] at hq; subst hq; exact hT t
 
 /-- The statement of the property for `fetch_all_keys`, for a given name mapping (`fixed`):
     on every reachable store (sorted ids, key rows written by the key API), for every filter of C04's domain
@@ -973,8 +1028,7 @@ theorem keyInv_insert (C : Cbor) (hC : C.Lawful) (s : Sess) {db db' : Db} {now :
   subst hdb
   refine ⟨hS, ?_, ?_⟩
   · unfold UniqueIdent
-    simp only [List.pairwise_append, hI.unique, true_and]
-    refine ⟨by simp, ?_⟩
+    refine List.pairwise_append.mpr ⟨hI.unique, List.pairwise_singleton _ _, ?_⟩
     intro a ha b hb
     simp only [List.mem_singleton] at hb; subst hb
     intro hh
@@ -1091,5 +1145,144 @@ theorem no_symmetric_load {K : Type} (O : KeyOps K) (hO : O.Lawful false) (k : K
     · rename_i hr; exact href hr
     · have := hO.no_oct rfl _ _ h
       rw [hsym] at this; cases this
+
+/-! ### Instances satisfying the hypotheses (non-vacuity) -/
+
+namespace Toy
+
+def encNat (n : Nat) : Bytes := List.replicate n 1 ++ [0]
+
+def decNat : Bytes → Option (Nat × Bytes)
+  | [] => none
+  | b :: r => if b = 0 then some (0, r) else if b = 1 then (decNat r).map fun (n, r') => (n + 1, r') else none
+
+theorem decNat_encNat (n : Nat) (r : Bytes) : decNat (encNat n ++ r) = some (n, r) := by
+  induction n with
+  | zero => simp [encNat, decNat]
+  | succ n ih =>
+    have : encNat (n + 1) ++ r = 1 :: (encNat n ++ r) := by simp [encNat, List.replicate_succ]
+    rw [this, decNat]; simp [ih]
+
+def encBytes (b : Bytes) : Bytes := encNat b.length ++ b
+
+def decBytes (x : Bytes) : Option (Bytes × Bytes) :=
+  match decNat x with
+  | none => none
+  | some (n, r) => if n ≤ r.length then some (r.take n, r.drop n) else none
+
+theorem decBytes_encBytes (b r : Bytes) : decBytes (encBytes b ++ r) = some (b, r) := by
+  simp [decBytes, encBytes, List.append_assoc, decNat_encNat]
+
+def encStr (s : String) : Bytes := encBytes (utf8 s)
+
+open Classical in
+noncomputable def decStr (x : Bytes) : Option (String × Bytes) :=
+  match decBytes x with
+  | none => none
+  | some (b, r) => if h : ∃ s, utf8 s = b then some (choose h, r) else none
+
+theorem decStr_encStr (s : String) (r : Bytes) : decStr (encStr s ++ r) = some (s, r) := by
+  have h : ∃ s', utf8 s' = utf8 s := ⟨s, rfl⟩
+  simp only [decStr, encStr, decBytes_encBytes, h, dite_true]
+  rw [Askar.Wql.Lemmas.utf8_inj (Classical.choose_spec h)]
+
+def encRef : Option KeyRef → Bytes
+  | none => [0]
+  | some .mobileSecureElement => [1]
+  | some (.any s) => 2 :: encStr s
+
+noncomputable def decRef : Bytes → Option (Option KeyRef × Bytes)
+  | [] => none
+  | b :: r =>
+    if b = 0 then some (none, r) else if b = 1 then some (some .mobileSecureElement, r)
+    else if b = 2 then (decStr r).map fun (s, r') => (some (.any s), r') else none
+
+theorem decRef_encRef (x : Option KeyRef) (r : Bytes) : decRef (encRef x ++ r) = some (x, r) := by
+  cases x with
+  | none => simp [encRef, decRef]
+  | some k =>
+    cases k with
+    | mobileSecureElement => simp [encRef, decRef]
+    | any s => simp [encRef, decRef, decStr_encStr]
+
+def enc (p : KeyParams) : Bytes :=
+  (match p.meta with | none => [0] | some m => 1 :: encStr m) ++ encRef p.ref ++
+  (match p.data with | none => [0] | some d => 1 :: encBytes d)
+
+noncomputable def dec (x : Bytes) : Option KeyParams :=
+  let m : Option (Option String × Bytes) := match x with
+    | [] => none
+    | b :: r => if b = 0 then some (none, r) else if b = 1 then (decStr r).map fun (s, r') => (some s, r') else none
+  match m with
+  | none => none
+  | some (mt, r1) =>
+    match decRef r1 with
+    | none => none
+    | some (rf, r2) =>
+      match r2 with
+      | [] => none
+      | b :: r =>
+        if b = 0 then (if r = [] then some ⟨mt, rf, none⟩ else none)
+        else if b = 1 then (match decBytes r with | some (d, []) => some ⟨mt, rf, some d⟩ | _ => none)
+        else none
+
+/-- a codec with the round-trip law exists -/
+noncomputable def cbor : Cbor := ⟨enc, dec⟩
+
+theorem cbor_lawful : cbor.Lawful := by
+  intro p
+  obtain ⟨m, rf, d⟩ := p
+  cases m with
+  | none =>
+    cases d with
+    | none => simp [cbor, enc, dec, decRef_encRef]
+    | some d =>
+      have := decBytes_encBytes d []
+      simp only [List.append_nil] at this
+      simp [cbor, enc, dec, decRef_encRef, this]
+  | some m =>
+    cases d with
+    | none => simp [cbor, enc, dec, List.append_assoc, decStr_encStr, decRef_encRef]
+    | some d =>
+      have := decBytes_encBytes d []
+      simp only [List.append_nil] at this
+      simp [cbor, enc, dec, List.append_assoc, decStr_encStr, decRef_encRef, this]
+
+/-- toy key material: `true` is an AES-128-GCM key, `false` an Ed25519 key; import has no `oct` branch -/
+def keyOps : KeyOps Bool where
+  alg k := if k then "a128gcm" else "ed25519"
+  thumbs k := .ok [if k then "T1" else "T0"]
+  encode k := .ok [if k then 1 else 0]
+  decode b := if b = [0] then .ok false else .error .unsupported
+  fromId _ _ := .error .unsupported
+  asStr _ := none
+
+theorem keyOps_lawful : keyOps.Lawful false := by
+  refine ⟨?_, ?_⟩
+  · intro k b hb himp
+    cases k with
+    | true => simp [keyOps, jwkImportable, isSymmetric, symmetricAlgs] at himp
+    | false => simp only [keyOps] at hb; injection hb with hb; subst hb; rfl
+  · intro _ b k h
+    cases k with
+    | true => simp only [keyOps] at h; split at h <;> cases h
+    | false => decide
+
+end Toy
+
+/-- "every inserted key loads back": for a given import capability `sym` -/
+def LoadAfterInsert (sym : Bool) : Prop :=
+  ∀ (K : Type) (O : KeyOps K), O.Lawful sym → ∀ (k : K) (data : Bytes), O.encode k = .ok data →
+    ∀ (name : String) («meta» : Option String) (alg : Option String) (ths : List String) (tags : List Tag),
+      loadLocalKey O ⟨name, ⟨«meta», none, some data⟩, alg, ths, tags⟩ = .ok k
+
+theorem load_after_insert_false : ¬ LoadAfterInsert false := by
+  intro h
+  have := h Bool Toy.keyOps Toy.keyOps_lawful true [1] rfl "k" none none [] []
+  exact no_symmetric_load Toy.keyOps Toy.keyOps_lawful true (by decide) _ (by simp) this
+
+theorem load_after_insert_true : LoadAfterInsert true := by
+  intro K O hO k data hd name m alg ths tags
+  exact load_after_insert true O hO k data hd (by simp [jwkImportable]) name m none (by simp) alg ths tags
 
 end Askar.KeyStore.Lemmas
